@@ -107,6 +107,12 @@ claimed = {
   technique="happens-before (vector clock) analysis of the repository's go/ssa executed under gosym's scheduler over a bounded number of schedules; SMT decides the data-dependent branches (symbolic amounts); candidates confirmed with the Go race detector",
   bounds=["6 workloads, 2-4 goroutines each plus the dependency's walker goroutines; up to 1500 (quick) / 20000 (thorough) schedules per workload (bounded search, not exhaustive: every explored schedule stands for its happens-before class)"],
   outside=["accesses inside badger, bigcache and gRPC (their models are atomic sections by assumption)", "workloads other than the listed ones; the gossip node's peer map (gossiper.nodes is iterated without the lock in processLackingParent: observation, gossip package not part of these workloads)", "before the DAG is loaded (CreateGenesis / LoadDag write dagLoaded under the lock while DagLoaded reads it without)"]),
+ "C11": dict(
+  text="A virtual network of REAL gossiper structs (real GossipVrx / gossipVertex / verifyGossipers / sendToAccountant / processLackingParent / GetVertex, real cache.Flashback over the bigcache model); peers are in-package clients that hand a deep copy of the message to the peer's real handler inside the goroutine that gossipVertex starts per peer, so delivery order = goroutine schedule. One vertex: EVERY connected topology on 3 (quick) / 4 (thorough) nodes, every origin, ALL delivery orders within 1 preemption: every node's ledger admits it exactly once, nobody forwards before its own ledger accepted, at most n(n-1) messages. All 38 connected 4-node topologies x 4 origins with the free (non-preemptive) schedule choices. Parent + child on 3 nodes (bounded search): nothing admitted twice, forward-after-accept; delivery of the child when it overtakes its parent is the pinned known finding.",
+  ref="DESIGN.md §3 C11",
+  technique=TECH + "; message delivery orders = goroutine schedules enumerated by the engine's scheduler",
+  bounds=["n = 3 all graphs exhaustively at preemption bound 1 (quick; n = 4 in thorough); n = 4 all connected graphs with non-preemptive schedule choices (budget 4000 schedules)", "two items: 3 nodes, budget 8000 schedules (not exhaustive)"],
+  outside=["ledger double (contract of C03/C13), transparent signatures (forgery: C12), no recent-hash expiry within a run (20 s window), gRPC delivers or returns an error", "n >= 5, more than two items in flight, awaiting-transaction gossip (GossipTrx shares the forwarding code path)"]),
 }
 
 NA_DEFAULT = "check not built yet in this session; see DESIGN.md §6 build order"
